@@ -471,10 +471,12 @@ func c08Families(tier string) []explore.Family {
 	}
 
 	// (E2) pipeline law: x | f | g  ==  assign t1 = x | f ; assign t2 = t1 | g ; print t2
-	args := []string{"i", `"b"`, "a", "n", "2", "m.b"}
+	// arguments include parenthesised pipelines (the grammar allows a pipeline inside parentheses anywhere an
+	// expression may stand)
+	args := []string{"i", `"b"`, "a", "n", "2", "m.b", "(s | upcase)", "(i | plus: 1)", "(a | first)"}
 	steps := c08Steps(args)
 	// (maps are not array-filter input here: their order is C02's business)
-	recv := []string{"a", "s", "n", "u", "i", "e", `"Ab c"`, "1.5", "a[1]", "m.a", "(1..3)", "d.l", "m.b", "a[3]"}
+	recv := []string{"a", "s", "n", "u", "i", "e", `"Ab c"`, "1.5", "a[1]", "m.a", "(1..3)", "d.l", "m.b", "a[3]", "a[(i | minus: 1)]", "((i)..(i | plus: 2))", "(s | append: s)"}
 	NS, NR := len(steps), len(recv)
 	fams = append(fams, explore.Family{Name: "pipeline-law-2", Count: int64(NR * NS * NS), Run: func(i int64, r *explore.Rec) {
 		rx := radix{i}
